@@ -28,8 +28,10 @@ func init() {
 			"(R11) sibling agreement (A14): the paired functions consist of the same operations - calls with their constant arguments, comparisons (canonical under negation and operand order), field reads/writes, channel operations, returns, each with the number of conditions it depends on - once the instance-specific names are mapped onto each other; logging is ignored, named differences are listed in the table: andCond.check ~ orCond.check. " +
 			"(R12) every character the tokenizer compares its input with is in escapeString's quoting set, and the tokenizer applies no character-class predicate (unicode.IsSpace ...) to the input; (R13) the list constructor stores the elements of a textual list as split (no trimming, case mapping or element rewrite). " +
 			"(R14) in parseAndOr every loop iteration leaves the operand-outstanding flag cleared exactly when it added an operand (plain condition or parenthesised group) and set when it consumed and/or/not - so a condition list may end in a group. " +
+			"(R15) textual int / float operands are parsed with bit size 64, the width the condition stores and prints. " +
+			"(R16) the database/prefix part of a query is split off at the first colon only (= C08-R9, record.ParseKey). " +
 			"NOT decided (named in the statement, out of reach for a sound static rule): print->parse->print identity, same-records equivalence.",
-		Rules: []ruleFn{c11R1, c11R2, c11R3, c11R4, c11R5, c11R6, c11R7, c11R8, c11R10, func(c *Ctx, r *Report) { siblingRule(c, r, "C11-R11", sibQuery) }, c11R12, c11R13, c11R14,
+		Rules: []ruleFn{c11R1, c11R2, c11R3, c11R4, c11R5, c11R6, c11R7, c11R8, c11R10, func(c *Ctx, r *Report) { siblingRule(c, r, "C11-R11", sibQuery) }, c11R12, c11R13, c11R14, c11R15, borrowRule(c08R9, "C08-R9", "C11-R16", 1, nil),
 			func(c *Ctx, r *Report) { narrowingRule(c, r, "C11-R9", []string{"database/query"}, map[string]string{"database/query.newIntCondition / uint -> int64": "operand handed in through the Go API, not from query text; values above MaxInt64 are outside what the text form can express"}) }},
 	})
 }
